@@ -65,7 +65,11 @@ def snapshot(dc, aspects=None):
         ds['style'] = style_tuple(d.style)
         ds['uuid'] = d.uuid
         ds['meta'] = tuple(sorted((str(k), repr(v)) for k, v in d.meta.items()))
-        ds['coords'] = type(d.coords).__name__ if d.coords is not None else None
+        # the coordinate frame: class, and which identifier stands for which axis (pixel and world lists are indexed by axis)
+        ds['coords'] = (type(d.coords).__name__ if d.coords is not None else None, tuple(c.label for c in d.pixel_component_ids),
+                        tuple(c.label for c in getattr(d, 'world_component_ids', [])),
+                        tuple(getattr(d.get_component(c), 'axis', None) for c in d.pixel_component_ids),
+                        tuple(getattr(d.get_component(c), 'axis', None) for c in getattr(d, 'world_component_ids', [])))
         ds['subsets'] = [(s.label, mask_of(s), style_tuple(s.style)) for s in d.subsets]
         ds['n_subsets'] = len(d.subsets)
         # accessible linked attributes: values of every externally derivable component
